@@ -68,6 +68,8 @@ def _init_worker():
     _ENV = None
     _PROJ.clear()
     sys.setrecursionlimit(3000)
+    from harness.core import private_cache
+    private_cache()
 
 
 def _call(args):
